@@ -85,30 +85,35 @@ func init() {
 		out.WriteString("/-- heap.go:typeAlign default branch: (length, alignment) for an oid outside the switch -/\n")
 		out.WriteString("def typeAlignDefaultFixed64 : Nat := ")
 		fmt.Fprintf(out, "%d\n", probeAlignFixed64(99999))
-		// what an empty varlena payload decodes to, per type oid: 0 = falls through to DecodeType (nil), 1 = "\\x"; absent = ""
-		out.WriteString("/-- heap.go:emptyVarlena observed on a one-byte tuple 0x03: 0 = nil (DecodeType of empty input), 1 = the string \\x; oids not listed give the empty string -/\n")
+		// what an empty varlena payload decodes to, per type oid: 0 = nil (falls through to DecodeType), 1 = "\\x",
+		// 2 = "".  Emitted as the kind of an oid outside every table plus the oids below maxOid that differ from it.
+		kindOf := func(t int) int {
+			m, ok := decode([]pgdump.Column{{Name: "v", TypID: t, Len: -1, Num: 1, Align: 'i'}}, []byte{0x03})
+			if !ok {
+				return 8
+			}
+			switch v := m["v"].(type) {
+			case nil:
+				return 0
+			case string:
+				if v == "\\x" {
+					return 1
+				}
+				if v == "" {
+					return 2
+				}
+			}
+			return 9
+		}
+		def := kindOf(99999)
+		out.WriteString("/-- heap.go:readValue on a one-byte tuple 0x03 (an empty varlena): 0 = nil (DecodeType of empty input), 1 = the string \\x, 2 = the empty string; the kind for a type oid outside every table of the tool -/\n")
+		fmt.Fprintf(out, "def emptyVarlenaDefault : Nat := %d\n", def)
+		out.WriteString("/-- … and the type oids below 5000 whose kind differs from that default -/\n")
 		out.WriteString("def emptyVarlenaKind : List (Nat × Nat) := [")
 		first = true
 		for t := 0; t < maxOid; t++ {
-			m, ok := decode([]pgdump.Column{{Name: "v", TypID: t, Len: -1, Num: 1, Align: 'i'}}, []byte{0x03})
-			kind := -1
-			if ok {
-				switch v := m["v"].(type) {
-				case nil:
-					kind = 0
-				case string:
-					if v == "\\x" {
-						kind = 1
-					} else if v != "" {
-						kind = 9
-					}
-				default:
-					kind = 9
-				}
-			} else {
-				kind = 8
-			}
-			if kind < 0 {
+			kind := kindOf(t)
+			if kind == def {
 				continue
 			}
 			if !first {
